@@ -296,6 +296,159 @@ impl Mon {
 		);
 	}
 
+	/// The typed `Parse` impls (`()`, `bool`, `NumberBuf`, `String`) on an
+	/// arbitrary text. They parse exactly one token at offset 0: no blank is
+	/// skipped before it and nothing is demanded of what follows a complete
+	/// literal or string. Expected outcome from the token grammars: a text that
+	/// cannot start the token is refused at offset 0; an error inside the token
+	/// is the one the reference reports; a complete token yields its value and
+	/// the single code-map entry (0, token length).
+	pub fn typed_input(&mut self, fam: &str, s: &str) {
+		#[derive(Debug)]
+		enum Want {
+			Err(usize, Option<char>),
+			/// whatever the reference says about this derived document
+			AsDocument(usize),
+			Ok(usize),
+			/// a complete number followed by a character that is neither blank nor end: both are fine
+			OkOrErr(usize, Option<char>),
+		}
+		let first = s.chars().next();
+		self.rep.evaluations += 1;
+		for kind in ['n', 't', '0', '"'] {
+			let starts = match (kind, first) {
+				('n', Some('n')) => true,
+				('t', Some('t' | 'f')) => true,
+				('0', Some('-' | '0'..='9')) => true,
+				('"', Some('"')) => true,
+				_ => false,
+			};
+			let want = if !starts {
+				Want::Err(0, first)
+			} else {
+				match kind {
+					'n' | 't' => {
+						let word = match first {
+							Some('n') => "null",
+							Some('t') => "true",
+							_ => "false",
+						};
+						let lcp = s.bytes().zip(word.bytes()).take_while(|(a, b)| a == b).count();
+						if lcp == word.len() {
+							Want::Ok(lcp)
+						} else {
+							Want::Err(lcp, s[lcp..].chars().next())
+						}
+					}
+					'"' => {
+						let mut esc = false;
+						let mut end = s.len();
+						for (i, c) in s.char_indices().skip(1) {
+							if esc {
+								esc = false;
+							} else if c == '\\' {
+								esc = true;
+							} else if c == '"' {
+								end = i + 1;
+								break;
+							}
+						}
+						Want::AsDocument(end)
+					}
+					_ => {
+						let r = s.bytes().take_while(|b| matches!(b, b'-' | b'+' | b'.' | b'e' | b'E' | b'0'..=b'9')).count();
+						let follow = s[r..].chars().next();
+						let rd = self.reader.read(s[..r].as_bytes(), false);
+						match rd.stop {
+							None => match follow {
+								None | Some(' ' | '\t' | '\n' | '\r') => Want::Ok(r),
+								f => Want::OkOrErr(r, f),
+							},
+							Some((e, Some(c))) => Want::Err(e, Some(c)),
+							Some((_, None)) => Want::Err(r, follow),
+						}
+					}
+				}
+			};
+			for slice in [false, true] {
+				let got = real::parse_typed(if kind == 't' { first.filter(|c| *c == 'f').unwrap_or('t') } else { kind }, s, slice);
+				self.rep.count("typed_parse_impl_calls_on_arbitrary_text", 1);
+				let entry = format!("typed Parse impl ({}, {})", match kind { 'n' => "()", 't' => "bool", '0' => "NumberBuf", _ => "String" }, if slice { "slice" } else { "str" });
+				let b = s.as_bytes();
+				let (end, must_ok, may_err): (usize, bool, Option<(usize, Option<char>)>) = match &want {
+					Want::Err(p, c) => (0, false, Some((*p, *c))),
+					Want::Ok(e) => (*e, true, None),
+					Want::OkOrErr(e, c) => (*e, true, Some((*e, *c))),
+					Want::AsDocument(e) => (*e, true, None),
+				};
+				let doc = &b[..end.max(0)];
+				if let Want::AsDocument(_) = want {
+					let rd = self.reader.read(doc, true);
+					match (&got, rd.accepts(Opts::STRICT)) {
+						(Ok((v, map)), true) => {
+							if self.flags.c02 {
+								self.compare_tree("C02", &entry, fam, b, &rd, v);
+							}
+							if self.flags.c05 && *map != vec![(0usize, end, 1usize)] {
+								self.viol("C05", "span", fam, format!("{} returns the code map {:?}, expected [(0, {}, 1)]", entry, map, end), b, json!({"entry": entry}));
+							}
+						}
+						(Ok(_), false) => {
+							if self.flags.c01 {
+								self.viol("C01", "typed-impl-accepts-invalid", fam, format!("{} accepts although the string token `{}` is ill-formed", entry, show(doc)), b, json!({"entry": entry}));
+							}
+						}
+						(Err(e), true) => {
+							if self.flags.c01 {
+								self.viol("C01", "typed-impl-rejects-valid", fam, format!("{} fails with {:?} although the text starts with the complete string token `{}`", entry, e, show(doc)), b, json!({"entry": entry}));
+							}
+						}
+						(Err(e), false) => {
+							if self.flags.c07 {
+								if let Err(m) = check_error(&rd, e) {
+									self.viol("C07", &format!("typed-impl:{}", err_name(e)), fam, format!("{}: {}", entry, m), b, json!({"entry": entry, "error": format!("{:?}", e)}));
+								}
+							}
+						}
+					}
+					continue;
+				}
+				match &got {
+					Ok((v, map)) => {
+						if !must_ok {
+							if self.flags.c01 || self.flags.c07 {
+								let prop = if self.flags.c01 { "C01" } else { "C07" };
+								self.viol(prop, "typed-impl-accepts-invalid", fam, format!("{} accepts; expected {:?}", entry, want), b, json!({"entry": entry}));
+							}
+							continue;
+						}
+						let want_v = match kind {
+							'n' => RVal::Null,
+							't' => RVal::Bool(first == Some('t')),
+							_ => RVal::Num(s[..end].to_string()),
+						};
+						if self.flags.c02 && to_rval(v) != want_v {
+							self.viol("C02", &format!("value-differs:{}", entry), fam, format!("{} returns {:?}, expected {:?}", entry, trunc(&to_rval(v)), want_v), b, json!({"entry": entry}));
+						}
+						if self.flags.c05 && *map != vec![(0usize, end, 1usize)] {
+							self.viol("C05", "span", fam, format!("{} returns the code map {:?}, expected [(0, {}, 1)]", entry, map, end), b, json!({"entry": entry}));
+						}
+					}
+					Err(PErr::Unexpected(p, c)) if may_err == Some((*p, *c)) => {}
+					Err(e) => {
+						if may_err.is_none() {
+							if self.flags.c01 {
+								self.viol("C01", "typed-impl-rejects-valid", fam, format!("{} fails with {:?}; expected {:?}", entry, e, want), b, json!({"entry": entry}));
+							}
+						} else if self.flags.c07 {
+							self.viol("C07", &format!("typed-impl:{}", err_name(e)), fam, format!("{} fails with {:?}; expected {:?}", entry, e, want), b, json!({"entry": entry, "error": format!("{:?}", e)}));
+						}
+					}
+				}
+			}
+		}
+	}
+
 	/// Feeds one input to the monitors selected by the flags.
 	pub fn input(&mut self, fam: &str, b: &[u8]) {
 		let f = self.flags;
@@ -1686,6 +1839,36 @@ pub fn fam_escape_runs(cfg: &Config, flags: Flags, max: usize) -> (Report, Vec<u
 		}
 		mon.rep.distinct_by_construction(n);
 		mon.rep.max("longest_escape_run", max as u64);
+	})
+}
+
+/// The typed `Parse` impls on every short text over three token alphabets
+/// (literals, numbers, strings), well-formed or not.
+pub fn fam_typed_impls(cfg: &Config, flags: Flags, max_len: usize) -> (Report, Vec<u8>) {
+	let name = "typed-parse-impls-on-arbitrary-short-texts";
+	const LIT: [&str; 13] = ["n", "u", "l", "t", "r", "e", "f", "a", "s", "x", " ", "N", "\u{e9}"];
+	const NUM: [&str; 12] = ["0", "1", "9", "-", "+", ".", "e", "E", "x", " ", ",", "\u{e9}"];
+	const STR: [&str; 12] = ["\"", "\\", "u", "d", "8", "0", "c", "a", "n", "\u{1}", "\u{20ac}", " "];
+	let alphabets: [&'static [&'static str]; 3] = [&LIT, &NUM, &STR];
+	let shards = 13 + 12 + 12;
+	run_family(cfg, flags, name, shards, &move |i, mon| {
+		let (a, first) = if i < 13 { (0, i) } else if i < 25 { (1, i - 13) } else { (2, i - 25) };
+		let alphabet = alphabets[a];
+		let mut n = 0u64;
+		if first == 0 && a == 0 {
+			mon.typed_input(name, "");
+			n += 1;
+		}
+		for len in 1..=max_len {
+			gen::for_each_seq(alphabet, len, &[first], &mut |b, _| {
+				mon.typed_input(name, std::str::from_utf8(b).unwrap());
+				n += 1;
+			});
+		}
+		mon.rep.distinct_by_construction(n);
+		if i == 0 {
+			mon.rep.sample(json!({"family": name, "input": "nulx", "expected": "<()>::parse_str fails with Unexpected(3, 'x'); \"nullx\" yields () with the code map [(0, 4, 1)]"}));
+		}
 	})
 }
 
